@@ -1197,6 +1197,11 @@ class Engine:
         if was_dead and g is not True and (g is False or not self.feasible(g)):
             self.g = False
             raise DeadBranch()
+        if g is not True and g is not False and g is not self.g:
+            # a stronger guard takes effect from here on (an escape - return / break / continue - happened under a
+            # condition): every object that exists now is OLDER than this region, so mutating it must be merged or
+            # committed, never applied outright.  (The enclosing construct restores region_serial when it ends.)
+            self.region_serial = self.serial
         self.g = g
 
     def after_region(self, g0, esc_before, was_dead=False):
